@@ -16,7 +16,9 @@ CHECKS = {
             "preemption points with seeded delays, so that every run realises a different interleaving (its signature is "
             "recorded). After a fault-free phase and a request into every region: no caller blocked, no cached region "
             "unavailable, no region holding a dead connection. Panics/fatal errors are caught by the child-process crash "
-            "monitor, data races in gohbase frames by the race log.",
+            "monitor, data races in gohbase frames by the race log. The same race-detector build then runs one slice of the "
+            "quick workloads of twelve other checks (Close at chosen points, blocked writes, cancellations, renewing "
+            "scanners, connection bursts); only race reports and crashes count there.",
             "A clean race log covers only accesses that ran concurrently in these runs; schedule coverage is reported as "
             "distinct interleaving signatures, not as a fraction of the space.",
             "Go race detector + crash monitor + quiescence invariants under stress with fault injection", "DESIGN.md §2 C09"),
@@ -106,7 +108,8 @@ CHECKS = {
             "Every kind of call with random option combinations, nil/empty qualifiers, values below and above the compression "
             "chunk, alone and in batches, is sent through the real client; the simulated servers decode every byte with an "
             "independent framing / KeyValue / block-compression codec and the decoded operation is compared field by field "
-            "with the specification the workload kept. Configurations cover codec none/snappy, TCP and wrapped (non-writev) "
+            "with the specification the workload kept (filters: random trees over every filter and comparator class, the wire side "
+            "opened by class name and printed field by field). Configurations cover codec none/snappy, TCP and wrapped (non-writev) "
             "connections, and up to 24 goroutines mixing batched and unbatched calls on one connection.",
             "Trusted: generated pb package for protobuf fields; independent codec in /verif/sim. Priority is judged only for "
             "frames of a single call (a multi-request has one header).",
